@@ -1,4 +1,4 @@
-// C03 harness: drives the real structure/sets/zset (plain Set[int], IntComparator) through
+// C03 harness: drives the real structure/sets/zset (plain Set[int]; IntComparator and comparators of other shapes) through
 // operation sequences, records every return value and - through the verif accessor VerifDump -
 // the real skip list after mutations, and writes Coq cases for C03/Check.v.
 //
@@ -99,20 +99,83 @@ func mutates(k string) bool {
 
 func z64(v int) string { return vhlib.Z(int64(v)) }
 
+// ---------- comparator shapes ----------
+// The Comparator type only promises the sign of its result. A share of the cases runs with
+// comparators of other shapes than the library's -1/0/+1: the difference a-b, the sign times a large
+// constant, and the reversed order b-a. Model and Spec only need the sign; for the reversed order the
+// members are written to the Coq case NEGATED (m <-> -m is an order isomorphism between (int, b-a) and
+// (Z, <)), so the same model and Spec judge it.
+var shapes = []string{"diff", "big", "rev"}
+var (
+	mSign      = 1     // -1 while a reversed-order case is being recorded
+	curShape   = "std" // comparator of the case being recorded
+	shapeCount = 0
+	forceShape = false // tie-heavy generators: never the standard comparator
+)
+
+func cmpFor(shape string) bcomparator.Comparator[int] {
+	switch shape {
+	case "diff":
+		return func(a, b int) int { return a - b }
+	case "big":
+		return func(a, b int) int {
+			switch {
+			case a < b:
+				return -(1 << 40) - 7
+			case a > b:
+				return 1<<40 + 7
+			}
+			return 0
+		}
+	case "rev":
+		return func(a, b int) int { return b - a }
+	}
+	return bcomparator.IntComparator()
+}
+
+// nextShape chooses the comparator of the next case: every third case (every case of a tie-heavy
+// generator) gets a non-standard shape, cycling through them.
+func nextShape() bcomparator.Comparator[int] {
+	shapeCount++
+	curShape = "std"
+	if forceShape || shapeCount%3 == 0 {
+		curShape = shapes[(shapeCount/3+shapeCount)%len(shapes)]
+	}
+	return useShape(curShape)
+}
+
+func useShape(shape string) bcomparator.Comparator[int] {
+	curShape = shape
+	mSign = 1
+	if shape == "rev" {
+		mSign = -1
+	}
+	return cmpFor(shape)
+}
+
+func zm(v int) string { return z64(v * mSign) }
+func zms(vs []int) string {
+	it := make([]int, len(vs))
+	for i, v := range vs {
+		it[i] = v * mSign
+	}
+	return vhlib.IntList(it)
+}
+
 func (o *op) coq() string {
 	switch o.K {
 	case "AddB":
-		return fmt.Sprintf("OAddB %s %s %s", z64(o.A), z64(o.B), vhlib.NatList(o.Hs))
+		return fmt.Sprintf("OAddB %s %s %s", z64(o.A), zm(o.B), vhlib.NatList(o.Hs))
 	case "IncrBy":
-		return fmt.Sprintf("OIncrBy %s %s %s", z64(o.A), z64(o.B), vhlib.NatList(o.Hs))
+		return fmt.Sprintf("OIncrBy %s %s %s", z64(o.A), zm(o.B), vhlib.NatList(o.Hs))
 	case "RemoveB":
-		return "ORemoveB " + z64(o.B)
+		return "ORemoveB " + zm(o.B)
 	case "Add":
-		return fmt.Sprintf("OAdd %s %s", vhlib.IntList(o.Ms), vhlib.NatList(o.Hs))
+		return fmt.Sprintf("OAdd %s %s", zms(o.Ms), vhlib.NatList(o.Hs))
 	case "Remove":
-		return "ORemove " + vhlib.IntList(o.Ms)
+		return "ORemove " + zms(o.Ms)
 	case "Contains":
-		return "OContains " + vhlib.IntList(o.Ms)
+		return "OContains " + zms(o.Ms)
 	case "Clear":
 		return "OClear"
 	case "Len":
@@ -124,13 +187,13 @@ func (o *op) coq() string {
 	case "Values":
 		return "OValues"
 	case "Score":
-		return "OScore " + z64(o.B)
+		return "OScore " + zm(o.B)
 	case "ContainsB":
-		return "OContainsB " + z64(o.B)
+		return "OContainsB " + zm(o.B)
 	case "Rank":
-		return "ORank " + z64(o.B)
+		return "ORank " + zm(o.B)
 	case "RevRank":
-		return "ORevRank " + z64(o.B)
+		return "ORevRank " + zm(o.B)
 	case "Count":
 		return fmt.Sprintf("OCount %s %s", z64(o.A), z64(o.B))
 	case "CountWithOpt":
@@ -183,7 +246,7 @@ func fscore(f float64) int64 {
 func nodesTerm(ns []zset.Node[int]) string {
 	it := make([]string, len(ns))
 	for i, n := range ns {
-		it[i] = vhlib.Pair(vhlib.Z(fscore(n.Score)), z64(n.Value))
+		it[i] = vhlib.Pair(vhlib.Z(fscore(n.Score)), zm(n.Value))
 	}
 	return "RNodes " + vhlib.List(it)
 }
@@ -223,7 +286,7 @@ func exec(z *zset.Set[int], o *op) (out string) {
 		case "Empty":
 			out = "RBool " + vhlib.Bool(z.Empty())
 		case "Values":
-			out = "RVals " + vhlib.IntList(z.Values())
+			out = "RVals " + zms(z.Values())
 		case "Score":
 			out = scoreOk(z.Score(o.B))
 		case "ContainsB":
@@ -282,7 +345,7 @@ func dumpTerm(z *zset.Set[int]) string {
 	}
 	ns := make([]string, len(d.Nodes))
 	for i, n := range d.Nodes {
-		ns[i] = fmt.Sprintf("mkD %s %s %s %s %s", vhlib.Z(fscore(n.Score)), z64(n.Value), vhlib.Nat(n.Level), pairList(n.Next, n.Span), z64(n.Prev))
+		ns[i] = fmt.Sprintf("mkD %s %s %s %s %s", vhlib.Z(fscore(n.Score)), zm(n.Value), vhlib.Nat(n.Level), pairList(n.Next, n.Span), z64(n.Prev))
 	}
 	return fmt.Sprintf("(mkDump %s %s %s %s %s)", vhlib.Nat(d.Highest), z64(d.Length), z64(d.Tail), pairList(d.HeaderNext, d.HeaderSpan), vhlib.List(ns))
 }
@@ -295,9 +358,10 @@ type run struct {
 	labels []string
 	ops    []*op
 	maxLen int
+	shape  string
 }
 
-func newRun() *run { return &run{z: zset.New[int](bcomparator.IntComparator())} }
+func newRun() *run { return &run{z: zset.New[int](nextShape()), shape: curShape} }
 
 // do executes o; dump: attach the structural dump taken right after it
 func (r *run) do(o *op, dump bool) {
@@ -424,7 +488,7 @@ func (r *run) endsBatteryLarge(probe []int) {
 
 func (r *run) emit(w *vhlib.Writer, label string) {
 	term := "CSeq [\n  " + strings.Join(r.steps, ";\n  ") + "]"
-	w.Case(term, label, r.maxLen >= 2, r.labels, map[string]interface{}{"kind": "seq", "ops": r.ops})
+	w.Case(term, label, r.maxLen >= 2, r.labels, map[string]interface{}{"kind": "seq", "cmp": r.shape, "ops": r.ops})
 }
 
 // ---------- generators ----------
@@ -723,7 +787,9 @@ func main() {
 			for m := 0; m < nm; m++ {
 				g.members = append(g.members, m) // includes the zero value 0
 			}
+			forceShape = prof == "zeros" || prof == "rescoring" // tie-heavy: never the standard comparator
 			run := newRun()
+			forceShape = false
 			l := 12 + g.r.Intn(20)
 			for i := 0; i < l; i++ {
 				run.doM(g.mutator(prof, i, run.z.Len()), true, g.members, false)
@@ -986,12 +1052,13 @@ func main() {
 			k = g.r.Intn(2)
 		}
 		inter := g.r.Bool()
+		cmp := nextShape()
 		var sets []*zset.Set[int]
 		var builds []string
 		var rep [][]*op
 		total := 0
 		for i := 0; i < k; i++ {
-			z := zset.New[int](bcomparator.IntComparator())
+			z := zset.New[int](cmp)
 			nops := g.r.Intn(7)
 			var terms []string
 			var ops []*op
@@ -1020,9 +1087,9 @@ func main() {
 		label := "Union"
 		p, _ := vhlib.Recover(func() {
 			if inter {
-				res = zset.Inter[int](bcomparator.IntComparator(), sets...)
+				res = zset.Inter[int](cmp, sets...)
 			} else {
-				res = zset.Union[int](bcomparator.IntComparator(), sets...)
+				res = zset.Union[int](cmp, sets...)
 			}
 		})
 		if inter {
@@ -1036,10 +1103,10 @@ func main() {
 		items := res.Range(0, -1)
 		it := make([]string, len(items))
 		for i, n := range items {
-			it[i] = vhlib.Pair(vhlib.Z(fscore(n.Score)), z64(n.Value))
+			it[i] = vhlib.Pair(vhlib.Z(fscore(n.Score)), zm(n.Value))
 		}
 		term := fmt.Sprintf("CAlg %s %s %s %s %s %s", vhlib.Bool(inter), vhlib.List(builds), vhlib.NatList(hs), vhlib.List(it), z64(res.Len()), dumpTerm(res))
-		w.Case(term, "alg", total >= 2, []string{label}, map[string]interface{}{"kind": "alg", "inter": inter, "builds": rep, "hs": hs})
+		w.Case(term, "alg", total >= 2, []string{label}, map[string]interface{}{"kind": "alg", "cmp": curShape, "inter": inter, "builds": rep, "hs": hs})
 	}
 
 	w.Close(o, "one case = one operation sequence on a fresh zset.Set[int] (or one Union/Inter of sets built by such sequences); every step records the real return value, mutating steps of small cases also the structural dump of the real skip list; heights are injected through fastrand.Uint32 and recorded; distinct = distinct case text; non-trivial = the set held at least two members at some point")
@@ -1063,8 +1130,11 @@ func replay(path string) {
 	} else if c, ok := top["replay"]; ok {
 		json.Unmarshal(c, &top)
 	}
-	var kind string
+	var kind, shape string
 	json.Unmarshal(top["kind"], &kind)
+	json.Unmarshal(top["cmp"], &shape)
+	cmp := useShape(shape)
+	fmt.Printf("comparator shape: %q (members printed x%d)\n", shape, mSign)
 	if kind == "alg" {
 		var builds [][]*op
 		var hs []int
@@ -1074,7 +1144,7 @@ func replay(path string) {
 		json.Unmarshal(top["inter"], &inter)
 		var sets []*zset.Set[int]
 		for i, b := range builds {
-			z := zset.New[int](bcomparator.IntComparator())
+			z := zset.New[int](cmp)
 			for _, x := range b {
 				exec(z, x)
 			}
@@ -1083,15 +1153,15 @@ func replay(path string) {
 		}
 		src.plan(hs)
 		if inter {
-			fmt.Printf("Inter -> %v\n", zset.Inter[int](bcomparator.IntComparator(), sets...).Range(0, -1))
+			fmt.Printf("Inter -> %v\n", zset.Inter[int](cmp, sets...).Range(0, -1))
 		} else {
-			fmt.Printf("Union -> %v\n", zset.Union[int](bcomparator.IntComparator(), sets...).Range(0, -1))
+			fmt.Printf("Union -> %v\n", zset.Union[int](cmp, sets...).Range(0, -1))
 		}
 		return
 	}
 	var ops []*op
 	json.Unmarshal(top["ops"], &ops)
-	z := zset.New[int](bcomparator.IntComparator())
+	z := zset.New[int](cmp)
 	for i, x := range ops {
 		out := exec(z, x)
 		fmt.Printf("%3d %-60s -> %s   [Len %d]\n", i, x.coq(), out, z.Len())
